@@ -98,15 +98,11 @@ func (pkg CurUpdatePackage) WriteTo(ch BytesChannel) error {
 	// 1 status
 	// 1 table name len
 	// x table name
-	// if pkg.Stmt:
-	//   2 stmt len
-	//   x stmt
-	totalLength := 4 + 1 + 1 + len(pkg.TableName)
+	// 2 stmt len
+	// x stmt
+	totalLength := 4 + 1 + 1 + len(pkg.TableName) + 2 + len(pkg.Stmt)
 	if pkg.CursorID == 0 {
 		totalLength += 1 + len(pkg.Name)
-	}
-	if len(pkg.Stmt) > 0 {
-		totalLength += 2 + len(pkg.Stmt)
 	}
 
 	if err := ch.WriteUint16(uint16(totalLength)); err != nil {
@@ -139,17 +135,13 @@ func (pkg CurUpdatePackage) WriteTo(ch BytesChannel) error {
 		return err
 	}
 
-	if len(pkg.Stmt) > 0 {
-		if err := ch.WriteUint16(uint16(len(pkg.Stmt))); err != nil {
-			return err
-		}
-
-		if err := ch.WriteString(pkg.Stmt); err != nil {
-			return err
-		}
+	// The statement length is always part of the package, the reader
+	// expects it for an empty statement as well.
+	if err := ch.WriteUint16(uint16(len(pkg.Stmt))); err != nil {
+		return err
 	}
 
-	return nil
+	return ch.WriteString(pkg.Stmt)
 }
 
 func (pkg CurUpdatePackage) String() string {
